@@ -86,6 +86,7 @@ class Slot:
         self.detail = None
         self.accepts = {}             # probe value -> bool (ppci accepted)
         self.reads = {}               # probe value -> value the reference printed (or None)
+        self.bit_holes = []           # operand bits that are accepted but lost although a higher bit reads back
 
     def key(self):
         return (self.ci.key,) + self.path
@@ -148,12 +149,14 @@ class Prober:
             if d.status != "ok":
                 out.append((True, None, d.status))
                 continue
-            p = refdis.norm_ppci(self.isa, b[0], b[2])
+            p = refdis.norm_ppci(self.isa, b[0], b[2], slot.ci.mnemonic)
             r = refdis.norm_ref(self.isa, d.text)
             if p is None or r is None:
                 out.append((True, None, "unparsed"))
                 continue
             m, atoms, _ = refdis.rewrite(self.isa, *p)
+            m, atoms = refdis.canon(self.isa, m, atoms)
+            r = refdis.canon(self.isa, r[0], r[1], ref=True)
             if v == "template":
                 ok, det = refdis.same(self.isa, (m, atoms), r)
                 out.append((True, 0 if ok else None, det))
@@ -205,7 +208,8 @@ class Prober:
         self._run(jobs)
         for s in live:
             self._fit_step(s)
-        # 3. extent for the chosen step
+        # 3. extent for the chosen step, and every single operand bit 2^k (k <= 20): a bit that does not read
+        #    back although a higher one does is a hole in the field mapping, not a range limit
         jobs = []
         for s in live:
             if s.status != "ok":
@@ -214,6 +218,9 @@ class Prober:
                 for v in (s.step * ((1 << k) - 1), -s.step * (1 << (k - 1))):
                     if v not in s.accepts:
                         jobs.append((s, self._with(s, v), v))
+            for k in range(0, 21):
+                if (1 << k) not in s.accepts:
+                    jobs.append((s, self._with(s, 1 << k), 1 << k))
         self._run(jobs)
         for s in live:
             if s.status == "ok":
@@ -273,3 +280,6 @@ class Prober:
             else:
                 break
         s.lo, s.hi = lo, hi
+        good = [k for k in range(0, 21) if rt(1 << k)]
+        if good:
+            s.bit_holes = [k for k in range(min(good), max(good)) if k not in good and s.accepts.get(1 << k)]
